@@ -348,12 +348,17 @@ def judge(res, pdef):
         orc_applies = c in pdef.get('oracle_cmds', ())
         pyor = pdef.get('py_oracle')
         verdict = None
+        if pyor:
+            pv = pyor(res, i)
+            if pv == 'OK':
+                continue          # the property's own oracle accepts this line outright
+            if pv:
+                findings.append(Finding('violation', res, i, pv))
+                break
         if orc_applies and orc.startswith('MISMATCH'):
             verdict = orc
             if nomodel and pdef.get('tolerate_err_after_damage') and impl.startswith(('err ', 'list')) and 'err ' in impl:
                 verdict = None     # after injected damage a read may fail; it must not return wrong data
-        if verdict is None and pyor:
-            verdict = pyor(res, i)
         if impl.startswith('panic') or impl == 'crash' or impl.startswith('skipped') or impl == 'err StepTimeout':
             if pdef.get('crash_is_violation', True):
                 findings.append(Finding('violation', res, i, f'implementation {impl}'))
@@ -544,7 +549,10 @@ def main():
             rng = random.Random(seed * 1000003 + (1 if tier == 'thorough' else 0))
             corpus = props.load_corpus(prop)
             n = args.count or pdef['count'][tier]
-            scens = corpus + [pdef['gen'](rng, tier) for _ in range(n)]
+            if 'scenarios' in pdef:
+                scens = corpus + pdef['scenarios'](tier, rng)
+            else:
+                scens = corpus + [pdef['gen'](rng, tier) for _ in range(n)]
             samples = [s for s in scens[len(corpus):len(corpus) + 2]]
             results, findings = run_and_judge(scens)
         elif not os.path.exists(MODEL_BIN):
@@ -673,7 +681,7 @@ def search(prop, pdef, seed, tier, known):
     rng = random.Random(seed * 7919 + 17)
     rnd = 0
     while time.time() - t0 < budget:
-        scens = [pdef['gen'](rng, 'thorough') for _ in range(JOBS * 4)]
+        scens = (pdef['scenarios']('thorough', rng) if 'scenarios' in pdef else [pdef['gen'](rng, 'thorough') for _ in range(JOBS * 4)])
         results = run_scenarios(scens, timeout=pdef.get('timeout', 900))
         for r in results:
             for f in judge(r, pdef):
